@@ -4,6 +4,7 @@
    collection -> startpoints / endpoints present in both). *)
 From stdpp Require Import strings gmap sets.
 From CG Require Import Base.Cases Base.Compose Model.Miter Proofs.MiterProofs Proofs.MiterEquiv.
+From CG Require Model.Lint Proofs.MiterLint.
 Open Scope string_scope.
 
 (* structure, for every accepted call (any c1 / startpoints / endpoints, defaults included): both circuits are blackbox-free, the
@@ -130,6 +131,37 @@ Theorem C04_unsat_iff_equivalent : ∀ (solve : circuit → string → bool),
 Proof. exact miter_unsat_iff_equiv. Qed.
 Print Assumptions C04_unsat_iff_equivalent.
 
+(* C20's second clause for this producer (lint = Model/Lint.v, the model of utils.lint proved equivalent to the documented rule list in
+   C20): the miter of two lint-clean circuits is lint-clean under the default flags when the tied startpoints are exactly the inputs of
+   both circuits (same interface, every input tied).  The hypothesis is necessary: an untied input is an undriven buffer c1_b, which
+   lint reports -- observed on the real code. *)
+Theorem C04_miter_lint_clean : ∀ Ca Cbo So Eo M,
+  miter Ca Cbo So Eo = Ok M →
+  let Cb := second Ca Cbo in let S := miter_S Ca Cb So in
+  Lint.lint_clean Ca → Lint.lint_clean Cb →
+  list_to_set S = inputs (c_g Ca) → list_to_set S = inputs (c_g Cb) →
+  Lint.lint_clean M.
+Proof. exact MiterLint.miter_lint_clean. Qed.
+Print Assumptions C04_miter_lint_clean.
+
+(* the default call on two circuits with the same inputs, and the self-miter *)
+Theorem C04_default_miter_lint_clean : ∀ Ca Cb M,
+  c_g Cb ≠ ∅ →
+  miter Ca (Some Cb) None None = Ok M →
+  Lint.lint_clean Ca → Lint.lint_clean Cb →
+  inputs (c_g Ca) = inputs (c_g Cb) →
+  of_type (c_g Ca) (is_ty BbOut) = ∅ → of_type (c_g Cb) (is_ty BbOut) = ∅ →
+  Lint.lint_clean M.
+Proof. exact MiterLint.miter_default_lint_clean. Qed.
+Print Assumptions C04_default_miter_lint_clean.
+
+Theorem C04_self_miter_lint_clean : ∀ Ca M,
+  miter Ca None None None = Ok M →
+  Lint.lint_clean Ca → of_type (c_g Ca) (is_ty BbOut) = ∅ →
+  Lint.lint_clean M.
+Proof. exact MiterLint.miter_self_lint_clean. Qed.
+Print Assumptions C04_self_miter_lint_clean.
+
 (* non-vacuity: a xor and its nand/or realisation, tied on a, compared on o; the call is accepted and the hypotheses hold *)
 Definition exA := mk "a" [("a", Input, false, []); ("b", Input, false, []); ("o", Xor, true, ["a"; "b"])] [].
 Definition exB := mk "b" [("a", Input, false, []); ("b", Input, false, []); ("n", Nand, false, ["a"; "b"]); ("r", Or, false, ["a"; "b"]);
@@ -142,3 +174,8 @@ Example C04_example_hyps :
   closed (c_g exA) ∧ closed (c_g exB) ∧
   map_Forall (λ _ i, n_ty i = Input → n_fi i = ∅) (c_g exA) ∧ map_Forall (λ _ i, n_ty i = Input → n_fi i = ∅) (c_g exB).
 Proof. repeat split; try (apply closedb_spec); apply (bool_decide_unpack _); vm_compute; exact I. Qed.
+Example C04_example_lint_hyps :
+  Lint.lint_clean exA ∧ Lint.lint_clean exB ∧ inputs (c_g exA) = inputs (c_g exB) ∧
+  of_type (c_g exA) (is_ty BbOut) = ∅ ∧ of_type (c_g exB) (is_ty BbOut) = ∅ ∧
+  rmap (λ M, size (c_g M)) (miter exA (Some exB) None None) = Ok 12.
+Proof. repeat split; try (apply (bool_decide_unpack _)); vm_compute; first [exact I | reflexivity]. Qed.
